@@ -119,7 +119,12 @@ def execute(prop, tier, plan, seed, wdir):
                 return out
         else:
             lockfile = f"{wdir}/locks-{name}.ndjson" if plan.get("locks") and b.get("runner", "run") == "run" else None
-            rc, summary, hang, text = harness_run(scen, trace, b.get("run_timeout", 1800), b.get("runner", "run"), locks=lockfile)
+            rc, summary, hang, text = harness_run(scen, trace, b.get("run_timeout", 900), b.get("runner", "run"), locks=lockfile)
+            if rc == 124 and hang is None:
+                # the harness itself never came back (15 minutes for a batch that takes seconds): threads of the code under test are
+                # wedged in a way the driver's own hang detection could not unwind
+                hang = {"scenario": {"name": f"batch {name}: the harness did not terminate (scenarios: {scen})"}, "schedule": []}
+                summary = summary or [{"run": 0, "name": name, "steps": 0, "hang": "the harness did not terminate", "stuck": False}]
         batch = {"batch": name, "runs": len(summary), "steps": sum(s["steps"] for s in summary), "stuck": sum(1 for s in summary if s["stuck"]),
                  "imprecise": sum(1 for s in summary if s.get("imprecise"))}
         out["batch"] = batch
@@ -304,7 +309,18 @@ def lock_analysis(prop, plan, wdir, seed, res, cov):
         if rec["violated"]:
             rec2, _ = run_locks([p for p in allp if not p.get("where", "").startswith(about)], "without-" + about)
             cov["mc_instances"].append(rec2)
-            if rec2["ok"]:
+            if not rec2["ok"] and rec2["violated"]:
+                # the cycle (or re-acquisition) does not need the sections of those sites: a background thread can wedge on its own, and
+                # the sites in question (e.g. shutdown) then block on the locks it holds
+                path = f"{WORK}/replay/{prop}-lockorder.json"
+                idx = out.find("Error: Invariant")
+                json.dump({"property": prop, "verdict": "potential deadlock", "violated": rec["violated"], "programs": allp,
+                           "tlc_counterexample": out[idx:idx + 6000]}, open(path, "w"), indent=1)
+                what = ("a cycle of lock / queue waits is reachable among the recorded critical sections" if "NoDeadlock" in rec["violated"]
+                        else "a thread re-acquires a lock it already holds (blocks for ever once a writer is queued in between)")
+                res["violations"].append({"replay": path, "what": what + f": the threads involved never release what {about}* needs, so that call blocks "
+                                          f"(new sections: {[c['ops'] for c in cov['lock_programs_not_in_reference']][:3]})"})
+            elif rec2["ok"]:
                 path = f"{WORK}/replay/{prop}-lockorder.json"
                 idx = out.find("Error: Invariant")
                 json.dump({"property": prop, "verdict": "potential deadlock", "violated": rec["violated"], "programs": allp,
